@@ -201,4 +201,23 @@ def r5_panics(ctx):
     panics.audit(ctx, "R5", panics.READER_ENTRIES, panics.READER_EXEMPT, floor=40)
 
 
-RULES = [("R1", r1_unsafe), ("R2", r2_typestate), ("R3", r3_marker), ("R4", r4_positions), ("R5", r5_panics)]
+def r5_support(ctx):
+    """The audited exemptions of R5 cite facts established by rules of sibling properties; they are
+    re-evaluated here so that breaking a cited fact makes C03 itself fire."""
+    import c01, c04, c10, c09, consume
+    n0 = len(ctx.obs)
+    c01.r3_scanners(ctx)      # comment minimum length / terminators: emit_bang's buf[3..len-2], buf[8..len-2]
+    c01.r1_dispatch(ctx)      # emit_end / read_bang_element are called only for '/' and '!'
+    c01.r4_delimiters(ctx)    # prefix tests guard the constant cuts
+    c04.r3_push(ctx)          # InsideEmpty only after a push: close_expanded_empty's unwrap
+    c04.r1_table(ctx)         # popped starts index opened_buffer
+    c10.r1_sets(ctx)          # escape sets are ASCII and handled: _escape's unreachable!/from_utf8().unwrap()
+    c09.r3_name_len(ctx)      # BytesStart::name_len <= buf.len()
+    consume.check(ctx, "R5s") # offset counts every consumed byte: `offset - len - 2` cannot underflow
+    for o in ctx.obs[n0:]:
+        if o["rule"] != "R5s":
+            o["site"] = o["rule"] + ":" + o["site"]
+            o["rule"] = "R5s"
+
+
+RULES = [("R1", r1_unsafe), ("R2", r2_typestate), ("R3", r3_marker), ("R4", r4_positions), ("R5", r5_panics), ("R5s", r5_support)]
